@@ -29,6 +29,8 @@ func parseOpts(s string) SysOpts {
 			o.BoltSync = true
 		case f == "skew":
 			o.Skew = true
+		case f == "reopenmid":
+			o.ReopenMid = true
 		case f == "freshmeta":
 			o.FreshMeta = true
 		case f == "fixedclock":
